@@ -7,6 +7,9 @@ use regex_syntax::ast::{self, Ast};
 #[derive(Clone, Copy, Debug, Default)]
 pub struct AstInfo {
     pub units: usize,
+    /// like `units`, but maximal runs of byte literals (non-Unicode patterns) that form valid UTF-8 are
+    /// counted in characters instead of bytes (the two defensible readings of "literal characters")
+    pub units_valid_runs_as_chars: usize,
     pub has_assertion: bool,
     /// contains a construct whose "character" count is ambiguous (byte escapes >= 0x80 outside
     /// unicode mode, empty classes)
@@ -17,6 +20,8 @@ pub fn ast_info(pattern: &str) -> Result<AstInfo, String> {
     let ast = ast::parse::Parser::new().parse(pattern).map_err(|e| e.to_string())?;
     let mut info = AstInfo::default();
     info.units = walk(&ast, &mut info);
+    let mut scratch = AstInfo::default();
+    info.units_valid_runs_as_chars = walk_runs(&ast, &mut scratch);
     Ok(info)
 }
 
@@ -79,4 +84,70 @@ fn walk(ast: &Ast, info: &mut AstInfo) -> usize {
 
 fn flags_touch_unicode(flags: &ast::Flags) -> bool {
     flags.items.iter().any(|it| matches!(it.kind, ast::FlagsItemKind::Flag(ast::Flag::Unicode)))
+}
+
+fn literal_byte(lit: &ast::Literal) -> Option<u8> {
+    // in a non-Unicode pattern a literal <= 0xFF written as \xNN (or an ASCII char) denotes one byte
+    if (lit.c as u32) <= 0xFF {
+        match lit.kind {
+            ast::LiteralKind::HexFixed(ast::HexLiteralKind::X) | ast::LiteralKind::HexBrace(ast::HexLiteralKind::X) => Some(lit.c as u32 as u8),
+            _ if (lit.c as u32) < 0x80 => Some(lit.c as u8),
+            _ => None,
+        }
+    } else {
+        None
+    }
+}
+
+/// Same recursion as `walk`, except that inside a concatenation maximal runs of byte literals are
+/// counted as characters when the run is valid UTF-8 (and as bytes otherwise).
+fn walk_runs(ast: &Ast, info: &mut AstInfo) -> usize {
+    match ast {
+        Ast::Concat(cat) => {
+            let mut total = 0;
+            let mut run: Vec<u8> = vec![];
+            let mut run_items = 0usize;
+            let flush = |run: &mut Vec<u8>, run_items: &mut usize| -> usize {
+                let n = if run.is_empty() {
+                    0
+                } else {
+                    match std::str::from_utf8(run) {
+                        Ok(s) => s.chars().count(),
+                        Err(_) => *run_items,
+                    }
+                };
+                run.clear();
+                *run_items = 0;
+                n
+            };
+            for a in &cat.asts {
+                if let Ast::Literal(l) = a {
+                    if let Some(b) = literal_byte(l) {
+                        run.push(b);
+                        run_items += 1;
+                        continue;
+                    }
+                }
+                total += flush(&mut run, &mut run_items);
+                total += walk_runs(a, info);
+            }
+            total += flush(&mut run, &mut run_items);
+            total
+        }
+        Ast::Repetition(rep) => {
+            let min = match &rep.op.kind {
+                ast::RepetitionKind::ZeroOrOne | ast::RepetitionKind::ZeroOrMore => 0,
+                ast::RepetitionKind::OneOrMore => 1,
+                ast::RepetitionKind::Range(r) => match r {
+                    ast::RepetitionRange::Exactly(n) => *n as usize,
+                    ast::RepetitionRange::AtLeast(n) => *n as usize,
+                    ast::RepetitionRange::Bounded(m, _) => *m as usize,
+                },
+            };
+            min * walk_runs(&rep.ast, info)
+        }
+        Ast::Group(g) => walk_runs(&g.ast, info),
+        Ast::Alternation(alt) => alt.asts.iter().map(|a| walk_runs(a, info)).min().unwrap_or(0),
+        other => walk(other, info),
+    }
 }
